@@ -249,13 +249,19 @@ def _fp():
     return F.module_state(extra=[("scorer_dummy", _scorer("dummy")), ("scorer_nb", _scorer("nb"))])
 
 
+PROTECTED = ("ctparse.rule.rules", "ctparse.rule._regex", "ctparse.rule._regex_str", "ctparse.rule._str_regex", "ctparse.rule._regex_cnt", "ctparse.ctparse._DEFAULT_SCORER", "ctparse.partial_parse.global_rules", "ctparse.ctparse.global_regex", "extra.")
+
+
 def _check_fp(v, where, fp0):
+    """Only what the property names is a violation: the rule base, the scorer model (default and caller-passed).
+    Any other module-level change (a cache, a counter) merely becomes part of the explored state."""
     from .. import fingerprint as F
 
     now = _fp()
     if now != fp0:
-        d = F.diff(fp0, now)
-        v.append(viol({"kind": "module_state_changed", "where": d[0] if d else "?"}, "module-level state changed after {}: {}".format(where, d[:6])))
+        d = [k for k in F.diff(fp0, now) if k.startswith(PROTECTED)]
+        if d:
+            v.append(viol({"kind": "rule_base_or_model_modified", "where": d[0]}, "{} modified {}".format(where, d[:6])))
         return False
     return True
 
